@@ -240,10 +240,16 @@ Definition render (k : ocase) (d : dev) : list string :=
 
 (* verdict: [refused-at (1-based, 0 = none); reason; not-equivalent (1 binds, 2 routes, 3 garbage);
              frame-broken-at; stepwise-unsafe-at; route-uncovered-at] and the final state as text *)
+(* premise of DeviceFrame.frame_every_prefix_proved: the script names nothing unmanaged
+   (syntactic, hence also evaluated for a script that the strict device refuses) *)
+Definition avoids_unmanaged (k : ocase) : bool :=
+  script_avoids {| s_acls := u_acls (o_unm k); s_groups := u_groups (o_unm k);
+                   s_locs := u_locs (o_unm k); s_routes := u_routes (o_unm k) |} MTop (o_script k).
+
 Definition run_ocase (k : ocase) : list nat * list string :=
   let d0 := o_dev k in
   match exec_all d0 (o_script k) with
-  | (Refuse w, n) => ([S n; why_code w; 0; 0; 0; 0; 0], [])
+  | (Refuse w, n) => ([S n; why_code w; 0; 0; 0; 0; if avoids_unmanaged k then 0 else 1], [])
   | (Ok d, _) =>
       let eq := if negb (binds_equiv (o_ios k) d (o_tgt k) (o_locs k)) then 1
                 else if negb (routes_equiv d0 d (o_tgt k)) then 2
@@ -252,10 +258,7 @@ Definition run_ocase (k : ocase) : list nat * list string :=
         frame_scan (o_unm k) (proj (o_unm k) d0) d0 (o_script k) 0;
         (if Nat.eqb (o_npk k) 0 then 0 else step_scan (o_mt k) (o_ios k) (o_npk k) d0 (o_tgt k) d0 (o_locs k) (o_script k) 0);
         route_scan d0 (o_tgt k) d0 (o_script k) 0;
-        (* premise of DeviceFrame.frame_every_prefix_proved: the script names nothing unmanaged *)
-        (if script_avoids {| s_acls := u_acls (o_unm k); s_groups := u_groups (o_unm k);
-                             s_locs := u_locs (o_unm k); s_routes := u_routes (o_unm k) |} MTop (o_script k)
-         then 0 else 1)],
+        (if avoids_unmanaged k then 0 else 1)],
        render k d)
   end%nat.
 
